@@ -1,4 +1,5 @@
 import Bip39V.Props.C04
+import Bip39V.Lemmas.NfkdIdem
 import Bip39V.Props.C02
 /-! # C11 — the seed is invariant under Unicode-equivalent spellings -/
 namespace Bip39V
@@ -39,6 +40,13 @@ theorem c11_full_witness :
     nfkd (97 :: (List.replicate 31 0x301 ++ [0x316])) = nfkd (97 :: 0x316 :: List.replicate 31 0x301) ∧
     streamSafe (97 :: (List.replicate 31 0x301 ++ [0x316])) = false := by decide +kernel
 
+/-- a mnemonic and passphrase typed fully decomposed (NFKD) give the seed of the original spelling -/
+theorem c11_nfkd_spelling (N : Normaliser) (PB : Bytes → Bytes → Nat → Nat → Bytes) (m p : Str)
+    (hs₁ : streamSafe m = true) (hs₂ : streamSafe ([109, 110, 101, 109, 111, 110, 105, 99] ++ p) = true) :
+    mnemonicToSeed N.X PB (nfkd m) (nfkd p) = mnemonicToSeed N.X PB m p :=
+  (c11_partial N PB m (nfkd m) p (nfkd p) (nfkd_idempotent m).symm (nfkd_idempotent p).symm hs₁ hs₂).symm
+
+#print axioms c11_nfkd_spelling
 #print axioms c11_partial
 #print axioms c11_separator
 #print axioms c11_full_witness
